@@ -61,7 +61,10 @@ def judge(case: dict[str, Any]) -> Judgement:
     from numpy.random import default_rng
 
     from ropt.ensemble_evaluator import EnsembleEvaluator
-    from ropt.ensemble_evaluator._ensemble_evaluator import _get_mask  # only to mirror how masks reach the plug-in
+    try:  # only to mirror how masks reach the plug-in; a private helper, so its absence is not an error
+        from ropt.ensemble_evaluator._ensemble_evaluator import _get_mask
+    except ImportError:
+        _get_mask = None
     from ropt.results import GradientResults
 
     j = Judgement()
@@ -86,9 +89,12 @@ def judge(case: dict[str, Any]) -> Judgement:
     manager, _ = make_manager()
     hm = handled_mask(V, mask, assign, 0)
     dim = int(hm.sum())
-    arg_mask = _get_mask(0, config.gradient.samplers, config.variables.mask)
-    if arg_mask is not None and not np.array_equal(np.asarray(arg_mask, dtype=bool), hm):
-        j.fail("handled-variable-mask", observed=arg_mask, expected=hm)
+    if _get_mask is not None:
+        arg_mask = _get_mask(0, config.gradient.samplers, config.variables.mask)
+        if arg_mask is not None and not np.array_equal(np.asarray(arg_mask, dtype=bool), hm):
+            j.fail("handled-variable-mask", observed=arg_mask, expected=hm)
+    else:
+        arg_mask = None if (mask is None and assign is None) else hm
     with warnings.catch_warnings():
         warnings.simplefilter("ignore")
         if case.get("sibling"):
@@ -181,7 +187,8 @@ def judge(case: dict[str, Any]) -> Judgement:
                 rng2 = default_rng(config.gradient.seed)
                 s0 = manager.get_plugin("sampler", method=method).create(config, 0, arg_mask, rng2)
                 if assign is not None:
-                    m1 = _get_mask(1, config.gradient.samplers, config.variables.mask)
+                    m1 = (_get_mask(1, config.gradient.samplers, config.variables.mask) if _get_mask is not None
+                          else handled_mask(V, mask, assign, 1))
                     manager.get_plugin("sampler", method=other).create(config, 1, m1, rng2)
                 first = 0 if assign is None else next((a for a in assign if a >= 0), 0)
                 if first == 0:
